@@ -1,4 +1,4 @@
-CONSTANT Strict = FALSE
+CONSTANT Strict = TRUE
 SPECIFICATION TSpec
 CONSTRAINT HW
 POSTCONDITION Accepted
